@@ -54,7 +54,8 @@ STATEMENTS = {
     'ERROR': ['ERROR {n}'],
     'FIELD': ['FIELD #{k},{n} AS F$', 'FIELD {k},{n} AS F$,{n} AS G$', 'FIELD #{k}'],
     'FILES': ['FILES', 'FILES {s}'],
-    'FOR': ['FOR I={n} TO {n}:NEXT', 'FOR I%={n} TO {n} STEP {n}:NEXT I%', 'FOR I={n} TO {n}'],
+    'FOR': ['FOR I={n} TO {n}:NEXT', 'FOR I%={n} TO {n} STEP {n}:NEXT I%', 'FOR I={n} TO {n}',
+            'FOR I!=1E38 TO 1.7E38 STEP {n}:NEXT', 'FOR I#=-1D38 TO -1.7D38 STEP -{n}:NEXT', 'FOR I%=32000 TO 32767 STEP {n}:NEXT'],
     'GET': ['GET #{k}', 'GET {k},{n}', 'GET ({n},{n})-({n},{n}),AR', 'GET ({n},{n})-STEP({n},{n}),AR%'],
     'GOSUB': ['GOSUB {l}'],
     'GOTO': ['GOTO {l}'],
